@@ -22,15 +22,18 @@ CATALOGUES = {
         "C|A|+|B|+|1|2M", "C|A|-|B|+|0|*|ID:Z:c1",
         "P|p1|A+,B+|2M1D1M", "P|p2|B-,A-|*", "P|p4|A+,B+,C-|*,*",
         "P|p5|A+,C+,A+|1M,*,*", "P|p6|C+|*", "S|E|*|aa:A:c|bb:i:1|cc:J:[1, 2]",
-        "P|B|A+,B+|*", "L|A|+|C|+|*|ID:Z:C",
-        "#| comment", "H|xx:i:1", "H|TS:i:1", "H|yy:i:2|TS:i:2",
+        "P|B|A+,B+|*", "L|A|+|C|+|*|ID:Z:C", "C|A|+|B|+|1|2M", "C|A|+|C|+|0|*", "C|A|+|A|-|0|*", "C|B|-|B|-|1|*|ID:Z:c2",
+        "P|p9|A+,A-,B+|2M1D1M,*", "P|p10|A+,C+,A+|2M,*",
+        "#| comment", "H|xx:i:1", "H|TS:i:1", "H|yy:i:2|TS:i:2", "H|TS:i:0", "H|ab:Z:x|TS:i:5", "H|ab:Z:y|cd:i:0|TS:i:0",
     ], ids=["A", "B", "C", "p1", "p2", "l1", "c1", "zz", "1", "3"], unused=True,
         renames=[("A", "D"), ("A", "B"), ("B", "p1"), ("p1", "q"), ("l1", "l2"), ("C", "zz"), ("A", "4"), ("3", "5"),
                  ("l1", "6"), ("p1", "9"), ("A", "*"), ("p1", "*"), ("B", "a b")],
         tagedits=[("A", "xx:i:5"), ("B", "LN:i:7"), ("p1", "yy:Z:a b"), ("l1", "RC:i:3"), ("E", "aa:Z:s"), ("F", "bb:Z:t"),
                   ("A", "zz:A:q"), ("D", "zz:i:3")],
         deltags=[("l1", "ID:Z:l1"), ("c1", "ID:Z:c1"), ("F", "aa:A:c"), ("E", "cc:J:[1, 2]"), ("D", "zz:A:q")],
-        clones=[("E", "F"), ("A", "D"), ("p1", "q"), ("p6", "p7"), ("A", "B")], badtags=[("A", "xx:Z:bad"), ("p1", "yy:Z:bad"), ("l1", "RC:Z:bad")], addcs=["S|A|ACGT", "L|A|+|C|+|1M", "C|A|+|B|+|1|2M", "P|p2|B-,A-|*"],
+        clones=[("E", "F"), ("A", "D"), ("p1", "q"), ("p6", "p7"), ("A", "B")],
+        badlines=["L|A|+|B|+|2Q", "L|A|+|C|x|*", "C|A|+|B|+|-1|*", "P|p1|A+,B+|1M,1M,1M", "S|A|AC GT", "L|B|+|C|-|*|ID:Z:l1|ID:Z:l2",
+                  "P|p8|A+,,B+|*", "C|A|+|B|+|1|2M|zz:i:x"], badtags=[("A", "xx:Z:bad"), ("p1", "yy:Z:bad"), ("l1", "RC:Z:bad")], addcs=["S|A|ACGT", "L|A|+|C|+|1M", "C|A|+|B|+|1|2M", "P|p2|B-,A-|*"],
         setfs=[("S|C|*", 2, "ACG"), ("S|A|ACGT", 2, "*"), ("L|A|+|B|+|2M1D1M", 5, "*"), ("L|A|+|C|+|1M", 2, "-"),
                ("L|A|+|C|+|1M", 3, "B"), ("C|A|+|B|+|1|2M", 5, "0"), ("C|A|+|B|+|1|2M", 6, "*"), ("C|A|+|B|+|1|2M", 2, "-"),
                ("C|A|+|B|+|1|2M", 1, "C"), ("P|p1|A+,B+|2M1D1M", 3, "*"), ("P|p2|B-,A-|*", 2, "A+,B+"),
@@ -56,7 +59,9 @@ CATALOGUES = {
         "# gfa2 comment", "H|TS:i:10", "S|f|3|*|aa:A:c|bb:i:1",
         "G|g3|a+|c-|7|*", "G|*|a+|b-|3|1", "F|a|y+|0|1|0|1|*", "U|u5|a e1", "O|o8|a+ e3+ c+",
         "E|c|a+|c+|0|1|0|1|*", "G|b|a+|b-|4|*", "U|u6|a u6", "O|o9|a+ o9+",
-        "O|o10|a+ g1+ b-", "O|o11|b+ g2+ c+ g3- a-", "X|custom|1",
+        "O|o10|a+ g1+ b-", "O|o11|b+ g2+ c+ g3- a-", "X|custom|1", "O|u1|a+ b+", "U|o1|a b", "O|o13|e3+ e3+ a+", "O|o14|e3- e3- c-",
+        "E|*|a+|a+|0|4$|0|4$|*", "E|e6|a-|a-|0|4$|0|4$|*",
+        "E|*|a+|b+|2|4$|0|2|*", "G|*|a+|b-|3|1", "F|a|x+|0|2|0|2|*", "U|u7|a|aa:A:c|jj:J:[1, 2]", "U|u7|b", "O|o12|a+|aa:A:c", "O|o12|b+",
     ], ids=["a", "b", "c", "e1", "e4", "g1", "g2", "g3", "o1", "o2", "u1", "u3", "zz", "2"], unused=True,
         renames=[("a", "d"), ("a", "b"), ("e1", "e9"), ("g1", "g9"), ("o1", "u1"), ("u1", "u2"), ("b", "e1"),
                  ("a", "8"), ("e1", "9"), ("2", "11"), ("a", "*"), ("e1", "*"), ("e4", "*"), ("g1", "*"), ("o1", "*"),
@@ -65,6 +70,8 @@ CATALOGUES = {
                   ("f", "bb:Z:t")],
         badtags=[("a", "xx:Z:bad"), ("e1", "yy:Z:bad"), ("u1", "yy:Z:bad")],
         clones=[("f", "h"), ("a", "d"), ("e1", "e9"), ("o1", "o9"), ("u1", "u9"), ("g1", "g9"), ("a", "b")],
+        badlines=["E|e1|a+|b+|5|2|0|2|*", "E|e5|b+|c+|3|6$|0|3$|2Q", "G|g1|a+|b-|x|*", "F|a|x+|3|1|0|2|*",
+                  "O|o1|a+ b", "U|u1|a  b", "E|e3|a+|c+|1|2|1|2|*|zz:i:x", "G|g2|b+|c|5|2"],
         deltags=[("h", "aa:A:c"), ("f", "bb:i:1"), ("e9", "yy:Z:a b")],
         addcs=["S|b|6|*", "E|*|a+|b+|2|4$|0|2|*", "F|a|x+|0|2|0|2|*", "O|o1|a+ b+", "X|custom|1"],
         setfs=[("S|a|4|ACGT", 3, "*"), ("S|b|6|*", 2, "7"), ("E|e1|a+|b+|2|4$|0|2|2M", 8, "*"), ("E|e1|a+|b+|2|4$|0|2|2M", 4, "1"),
@@ -75,7 +82,7 @@ CATALOGUES = {
                ("G|g1|a+|b-|10|*", 4, "!x")]),
     "gfa2s": dict(version="gfa2", lines=[
         "S|a|4|*", "S|b|6|*",
-        "E|e1|a+|b+|2|4$|0|2|*", "E|*|a+|b+|2|4$|0|2|*", "E|e2|a+|b-|0|4$|1|5|*",
+        "E|e1|a+|b+|2|4$|0|2|*", "E|*|a+|b+|2|4$|0|2|*", "E|*|a+|b+|2|4$|0|2|*", "E|e2|a+|b-|0|4$|1|5|*",
         "G|g1|a+|b-|10|*",
         "O|o1|a+ e1+ b+", "U|u1|a e1 g1", "U|u2|u1 o1", "O|o6|e1- a-", "U|u1|b|xx:i:1", "U|u1|a|xx:Z:1",
     ], ids=["a", "b", "e1", "g1", "o1", "u1", "zz"], renames=[("a", "d"), ("e1", "u1")],
@@ -113,10 +120,11 @@ CATALOGUES["perml"] = dict(version="gfa1", lines=[
 # version queue with clashing identifiers (known findings of C08: the flush is not transactional)
 CATALOGUES["kfq"] = dict(version="none", lines=[
     "P|A|B+,C+|*", "S|A|*", "L|A|+|B|+|*|ID:Z:x", "P|x|A+,B+|*", "S|B|*", "#| c", "H|VN:Z:1.0|bb:i:2", "H|aa:i:1",
+    "H|TS:i:0", "H|ab:Z:x|TS:i:5", "H|VN:Z:1.0|TS:i:7",
     "C|A|+|B|+|0|*|ID:Z:x",
 ], ids=["A", "x"], renames=[])
 CATALOGUES["ver"] = dict(version="none", lines=[
-    "H|xx:i:1", "H|VN:Z:1.0", "H|VN:Z:2.0", "H|VN:Z:3.0",
+    "H|xx:i:1", "H|VN:Z:1.0", "H|VN:Z:2.0", "H|VN:Z:3.0", "H|TS:i:10", "H|VN:Z:1.0|TS:i:20", "H|VN:Z:2.0|TS:i:20",
     "S|A|*", "S|a|3|*",
     "L|A|+|B|+|*", "C|A|+|B|+|0|*", "P|p|A+,B+|*",
     "E|e|a+|b+|0|1|2|3$|*", "F|a|x+|0|1|0|1|*", "G|g|a+|b-|5|*", "O|o|a+ b+", "U|u|a b",
@@ -144,16 +152,26 @@ CATALOGUES["ids1"] = dict(version="gfa1", lines=[
     renames=[("A", "4"), ("3", "7"), ("2", "9"), ("A", "1"), ("5", "2"), ("1", "A")])
 CATALOGUES["ids2"] = dict(version="gfa2", lines=[
     "S|a|3|*", "S|1|3|*",
-    "E|2|a+|1+|0|1|2|3$|*", "E|a|1+|1-|0|1|2|3$|*", "G|3|a+|1-|5|*", "O|4|a+ 2+ 1+", "U|1|a 2", "U|6|a 3",
+    "E|2|a+|1+|0|1|2|3$|*", "E|a|1+|1-|0|1|2|3$|*", "G|3|a+|1-|5|*", "O|4|a+ 2+ 1+", "U|1|a 2", "U|6|a 3", "O|6|a+ 1+", "U|4|a",
 ], ids=["a", "1", "2", "3"], unused=True,
     renames=[("a", "5"), ("2", "8"), ("3", "a"), ("4", "9"), ("6", "1")])
+
+
+# a GFA1 document that can be converted (lengths known, overlaps stated): the conversion names the
+# unnamed links and containments of the source (C06); the registry must know the new identifiers (C09)
+CATALOGUES["conv1"] = dict(version="gfa1", lines=[
+    "S|A|ACGT", "S|B|*|LN:i:6", "S|C|AC", "S|1|ACG", "S|6|*|LN:i:2", "S|2|A",
+    "L|A|+|B|+|2M", "L|B|+|C|-|1M", "L|A|+|A|-|1M", "L|C|+|A|+|1M|ID:Z:5", "C|A|+|C|+|0|2M", "C|B|+|A|-|1|3M",
+    "P|p|A+,B+|2M", "P|7|B+,C-|1M",
+], ids=["A", "B", "C", "p", "1", "2", "5", "6", "7", "8", "9"], unused=True, tog2=True,
+    renames=[("A", "1"), ("p", "2"), ("B", "6"), ("5", "8"), ("6", "9"), ("7", "10"), ("8", "3")])
 
 
 # topology: components, counters, clean-up operations (C16)
 CATALOGUES["topo1"] = dict(version="gfa1", lines=[
     "S|A|ACGT", "S|B|*|LN:i:6", "S|C|AC", "S|D|A",
-    "L|A|+|B|+|*", "L|B|+|C|-|1M", "L|A|+|A|+|*", "L|D|+|D|-|*", "L|C|-|A|+|*",
-    "C|A|+|D|+|0|*", "P|p|A+,B+|*",
+    "L|A|+|B|+|*", "L|B|+|C|-|1M", "L|A|+|A|+|*", "L|D|+|D|-|*", "L|C|-|A|+|*", "L|D|+|B|+|*", "L|D|-|C|-|*",
+    "C|A|+|D|+|0|*", "C|A|+|A|-|0|*", "P|p|A+,B+|*",
 ], ids=["A", "B", "C", "D"], renames=[("A", "E")], rsc=[3, 7, 20], rsl=True)
 CATALOGUES["topo2"] = dict(version="gfa2", lines=[
     "S|a|4|*", "S|b|6|*", "S|c|2|*", "S|d|1|*",
@@ -189,6 +207,8 @@ def build_ops(cat):
             ops.append(dict(k="disc", text=text_of(ln), id="", id2=""))
     for a, b in cat.get("clones", []):
         ops.append(dict(k="addcl", text="", id=a, id2=b))
+    for ln in cat.get("badlines", []):
+        ops.append(dict(k="add", text=text_of(ln), id="", id2="invalid"))
     for ln in cat.get("addcs", []):
         ops.append(dict(k="addc", text=text_of(ln), id="", id2=""))
     for ln, pos, val in cat.get("setfs", []):
@@ -202,6 +222,9 @@ def build_ops(cat):
         ops.append(dict(k="rsl", text="", id="", id2=""))
     if cat.get("unused"):
         ops.append(dict(k="unused", text="", id="", id2=""))
+    if cat.get("tog2"):
+        ops.append(dict(k="tog2", text="", id="", id2=""))
+        ops.append(dict(k="tog2", text="", id="", id2=""))
     if cat.get("validate"):
         ops.append(dict(k="validate", text="", id="", id2=""))
     for ident, tag in cat.get("deltags", []):
@@ -299,6 +322,8 @@ def apply_op(gfapy, gfa, op, version):
         if prev_obj is not None and gfa.line(f0[1]) is not prev_obj:
             # the object that carried the identifier has been superseded (placeholder, earlier group line)
             gfa.__dict__.setdefault("_verif_stale", {})[f0[1]] = prev_obj
+    elif k == "tog2":
+        gfa.to_gfa2_s()
     elif k == "stale":
         # a handle obtained before the line was superseded is used to rename: the Gfa is not concerned
         o = gfa.__dict__.get("_verif_stale", {}).get(op["id"])
@@ -737,12 +762,52 @@ def doc_jobs(catname, n, nmut, seed, vlevel=1, kind="doc", cfgversion=None):
         k = rnd.randint(3, min(len(adds), 12))
         doc = rnd.sample(adds, k)
         h = list(doc)
+        unnamed = [o for o in doc if o["text"].split("\t")[0] in "ECGFX#" and
+                   (o["text"].split("\t")[0] in "CFX#" or o["text"].split("\t")[1] == "*")]
+        if unnamed and rnd.random() < 0.35:
+            # the same unnamed line twice (two lines of the document)
+            h.insert(rnd.randint(0, len(h)), rnd.choice(unnamed))
         for _ in range(nmut):
             h.append(rnd.choice(others) if rnd.random() < 0.6 else rnd.choice(adds))
         h = [dict(o, inst=True) if o["k"] == "add" and rnd.random() < 0.3 else o for o in h]
         jobs.append(dict(id="%s-%s-%d" % (kind, catname, i), kind=kind,
                          cfg=dict(version=cfgversion or cat["version"], vlevel=vlevel),
                          ops=h, universe=universe))
+    return jobs
+
+
+def dup_jobs(catname, seed, vlevel=1, kind="dup"):
+    """every line of the catalogue that may occur twice (no identifier) twice or three times in a small
+    document, in three arrival orders, followed by the removal of one copy, of a segment it mentions, and
+    by another copy: equal lines are separate lines"""
+    cat = CATALOGUES[catname]
+    rnd = random.Random(seed)
+    lines = [text_of(l) for l in cat["lines"]]
+    segs = {}
+    for t in lines:
+        f = t.split("\t")
+        if f[0] == "S" and f[1] not in segs:
+            segs[f[1]] = t
+    A = lambda t: dict(k="add", text=t, id="", id2="")
+    jobs, n = [], 0
+    seen = set()
+    for t in lines:
+        f = t.split("\t")
+        unnamed = (f[0] in "CFX#" and not any(x.startswith("ID:Z:") for x in f)) or (f[0] in "EG" and f[1] == "*")
+        if not unnamed or t in seen:
+            continue
+        seen.add(t)
+        ment = [x.rstrip("+-") for x in (f[1:4:2] if f[0] == "C" else f[2:4] if f[0] in "EG" else f[1:2] if f[0] == "F" else [])]
+        ss = [segs[m] for m in dict.fromkeys(ment) if m in segs]
+        for reps in (2, 3):
+            for od in (ss + [t] * reps, [t] * reps + ss, [t] + ss + [t] * (reps - 1)):
+                tail = [dict(k="disc", text=t, id="", id2="")]
+                if ment:
+                    tail.append(dict(k="rm", text="", id=rnd.choice(ment), id2=""))
+                tail.append(A(t))
+                jobs.append(dict(id="%s-%s-%d" % (kind, catname, n), kind=kind, cfg=dict(version=cat["version"], vlevel=vlevel),
+                                 ops=[A(x) for x in od] + (tail if n % 2 else tail[1:] + tail[:1]), universe=universe_of(cat)))
+                n += 1
     return jobs
 
 
@@ -777,11 +842,13 @@ def rename_jobs(catname, n, seed, vlevel=1, kind="renall"):
                 h.append(dict(k="ren", text="", id=fresh[k], id2=nm, n=0))
             if rnd.random() < 0.2:
                 h.append(A(rnd.choice(adds)))
+            if cat["version"] == "gfa1" and rnd.random() < 0.25:
+                h.append(dict(k="tog2", text="", id="", id2=""))
             if rnd.random() < 0.3:
                 # a handle kept from before the line was superseded is used to rename
                 h.append(dict(k="stale", text="", id=rnd.choice(names), id2=rnd.choice(fresh + names)))
         jobs.append(dict(id="%s-%s-%d" % (kind, catname, i), kind=kind, cfg=dict(version=cat["version"], vlevel=vlevel),
-                         ops=h, universe=sorted(set(universe_of(cat)) | set(fresh))))
+                         ops=h, universe=sorted(set(universe_of(cat)) | set(fresh) | {str(x) for x in range(1, 13)})))
     return jobs
 
 
@@ -943,6 +1010,9 @@ def attribute(clauses, kind):
     props = set()
     for c in clauses:
         p = CLAUSE_PROP.get(c, "C05")
+        if kind == "cell" and c in ("components", "counts"):
+            # C11's own workload: "neighbours, ... other-end and connectivity answers follow from these collections"
+            props.add("C11")
         if kind == "link" and c in LINK_CLAUSES:
             # a history of one link, its complement and paths over either form: what is stored after
             # each of these additions is what C12 states ("adds nothing and raises nothing", "path
